@@ -469,6 +469,8 @@ func CheckC12(c *Ctx) {
 		return
 	}
 	worker := lits[0]
+	c.workerLoop("sync/jobs", site, info, fi.Decl)
+	c.defaultWhenEmpty("sync/jobs", site, info, fi.Decl, "Assets")
 	// the worker ranges over one jobs channel built from s.Assets
 	var loop *ast.RangeStmt
 	for _, s := range worker.Body.List {
@@ -1197,6 +1199,9 @@ func CheckC13(c *Ctx) {
 	if !wOK {
 		c.violate("backtest/write-once", site+".worker", fmt.Sprintf("writes=%d", writes), stratLoop.Pos(), "every (asset, strategy) pair must be written exactly once with the outputs of ComputeWithOutcome of that strategy on a fresh copy of the asset's snapshots")
 	}
+	c.errorOrientation("backtest/error-orientation", "backtest")
+	c.workerLoop("backtest/jobs", site+".Run", info, runFi.Decl)
+	c.defaultWhenEmpty("backtest/protocol", site+".Run", info, runFi.Decl, "Strategies")
 	c.writeArguments(wFi, site)
 	c.resultFields()
 	// races
@@ -1932,6 +1937,21 @@ func unguardedSliceIndexes(info *types.Info, body *ast.BlockStmt) []indexSite {
 			case *ast.IfStmt:
 				if mentionsLen(p.Cond) {
 					guarded = true
+					// a constant index k: the branch the index sits in must be unreachable for len <= k
+					if tv, isC := info.Types[ix.Index]; isC && tv.Value != nil {
+						if k, exact := constant.Int64Val(constant.ToInt(tv.Value)); exact && k >= 0 && k < 8 {
+							inThen := ix.Pos() >= p.Body.Pos() && ix.End() <= p.Body.End()
+							for ln := int64(0); ln <= k; ln++ {
+								if v, dec := lenCondAt(info, p.Cond, base, ln); dec && v == inThen {
+									guarded = false
+								}
+							}
+							if !guarded {
+								out = append(out, indexSite{text: types.ExprString(ix), pos: ix.Pos(), guarded: false})
+								return true
+							}
+						}
+					}
 				}
 			case *ast.ForStmt:
 				if p.Cond != nil && mentionsLen(p.Cond) {
@@ -1947,6 +1967,16 @@ func unguardedSliceIndexes(info *types.Info, body *ast.BlockStmt) []indexSite {
 						switch is.Body.List[len(is.Body.List)-1].(type) {
 						case *ast.ReturnStmt, *ast.BranchStmt:
 							guarded = true
+							// a constant index k: the guard must leave for every len <= k
+							if tv, isC := info.Types[ix.Index]; isC && tv.Value != nil {
+								if k, exact := constant.Int64Val(constant.ToInt(tv.Value)); exact && k >= 0 && k < 8 {
+									for ln := int64(0); ln <= k; ln++ {
+										if v, dec := lenCondAt(info, is.Cond, base, ln); dec && !v {
+											guarded = false
+										}
+									}
+								}
+							}
 						}
 					}
 				}
@@ -2525,4 +2555,260 @@ func paramIndex(info *types.Info, fd *ast.FuncDecl, obj types.Object) int {
 		}
 	}
 	return -1
+}
+
+// workerLoop: the go statements of fd that start workers sit in a loop that runs exactly Workers
+// times: `for i := 0; i < x.Workers; i++` (a range over the integer is normalised to this form).
+// A loop that starts no worker returns a run that did nothing as a success; one that starts
+// more or fewer than configured breaks "the result does not depend on the number of workers"
+// only in resource use, so only the zero case and a foreign bound are judged: the bound is the
+// Workers field and the loop counts up from 0 by 1 with `<`.
+func (c *Ctx) workerLoop(rule, site string, info *types.Info, fd *ast.FuncDecl) {
+	run := c.Run
+	n := 0
+	var stack []ast.Node
+	ast.Inspect(fd.Body, func(nd ast.Node) bool {
+		if nd == nil {
+			stack = stack[:len(stack)-1]
+			return true
+		}
+		stack = append(stack, nd)
+		if _, isGo := nd.(*ast.GoStmt); !isGo {
+			return true
+		}
+		var loop *ast.ForStmt
+		for i := len(stack) - 1; i >= 0 && loop == nil; i-- {
+			if fs, ok := stack[i].(*ast.ForStmt); ok {
+				loop = fs
+			}
+			if _, isLit := stack[i].(*ast.FuncLit); isLit {
+				break
+			}
+		}
+		if loop == nil {
+			return true
+		}
+		n++
+		why := ""
+		init, okI := loop.Init.(*ast.AssignStmt)
+		cond, okC := loop.Cond.(*ast.BinaryExpr)
+		post, okP := loop.Post.(*ast.IncDecStmt)
+		switch {
+		case !okI || !okC || !okP || len(init.Lhs) != 1 || len(init.Rhs) != 1:
+			why = "the loop that starts the workers is not a counted loop (undecided, fails closed)"
+		default:
+			iv, _ := init.Lhs[0].(*ast.Ident)
+			lo, isC := constInt(info, init.Rhs[0])
+			cv, _ := ast.Unparen(cond.X).(*ast.Ident)
+			pv, _ := post.X.(*ast.Ident)
+			bound, _ := c.origin(info, fd, cond.Y, 0)
+			sel, isSel := ast.Unparen(bound).(*ast.SelectorExpr)
+			switch {
+			case iv == nil || cv == nil || pv == nil || info.ObjectOf(cv) != info.ObjectOf(iv) || info.ObjectOf(pv) != info.ObjectOf(iv):
+				why = "the loop that starts the workers does not count one variable (undecided, fails closed)"
+			case !isC || post.Tok != token.INC || !((cond.Op == token.LSS && lo <= 0) || (cond.Op == token.LEQ && lo <= 1)):
+				// (at least one iteration whenever Workers >= 1)
+				why = fmt.Sprintf("the loop that starts the workers is `for %s; %s; %s`: it does not run once for each of the configured workers", exprString2(init), exprString(cond), exprString2(post))
+			case !isSel || sel.Sel.Name != "Workers":
+				why = "the number of workers started is " + exprString(cond.Y) + ", not the configured Workers"
+			}
+		}
+		run.Oblige(why == "")
+		if why != "" {
+			c.violate(rule, site, "worker loop", loop.Pos(), why+": with no worker started the run ends at once and reports success without having processed a single asset")
+		}
+		return true
+	})
+	run.Count("worker_loops", n)
+	run.Floor("worker_loops", 1)
+}
+
+func exprString2(s ast.Stmt) string {
+	switch x := s.(type) {
+	case *ast.AssignStmt:
+		return exprString(x.Lhs[0]) + " " + x.Tok.String() + " " + exprString(x.Rhs[0])
+	case *ast.IncDecStmt:
+		return exprString(x.X) + x.Tok.String()
+	}
+	return "…"
+}
+
+// defaultWhenEmpty: an assignment to the configuration field (the strategies to backtest, the
+// assets to synchronise) inside fd replaces what the caller configured; it is the documented
+// default and may only happen when the caller configured nothing: it sits under a condition that
+// holds exactly when the field's length is 0 (decided for lengths 0, 1 and 2).
+func (c *Ctx) defaultWhenEmpty(rule, site string, info *types.Info, fd *ast.FuncDecl, field string) {
+	run := c.Run
+	n := 0
+	var stack []ast.Node
+	ast.Inspect(fd.Body, func(nd ast.Node) bool {
+		if nd == nil {
+			stack = stack[:len(stack)-1]
+			return true
+		}
+		stack = append(stack, nd)
+		as, ok := nd.(*ast.AssignStmt)
+		if !ok {
+			return true
+		}
+		for _, l := range as.Lhs {
+			sel, isSel := ast.Unparen(l).(*ast.SelectorExpr)
+			if !isSel || sel.Sel.Name != field {
+				continue
+			}
+			if v, isF := info.ObjectOf(sel.Sel).(*types.Var); !isF || !v.IsField() {
+				continue
+			}
+			n++
+			why := "the configured " + field + " are replaced unconditionally"
+			for i := len(stack) - 2; i >= 0; i-- {
+				is, isIf := stack[i].(*ast.IfStmt)
+				if !isIf {
+					continue
+				}
+				// the assignment must be in the then-branch
+				if as.Pos() < is.Body.Pos() || as.End() > is.Body.End() {
+					why = "the configured " + field + " are replaced in the else-branch of `" + exprString(is.Cond) + "`"
+					break
+				}
+				be, isBin := ast.Unparen(is.Cond).(*ast.BinaryExpr)
+				if !isBin {
+					why = "the condition `" + exprString(is.Cond) + "` is not a test of the number of " + field + " (undecided, fails closed)"
+					break
+				}
+				lenOf := func(e ast.Expr) bool {
+					call, ok := ast.Unparen(e).(*ast.CallExpr)
+					if !ok || len(call.Args) != 1 {
+						return false
+					}
+					id, ok := call.Fun.(*ast.Ident)
+					if !ok || id.Name != "len" {
+						return false
+					}
+					s2, ok := ast.Unparen(call.Args[0]).(*ast.SelectorExpr)
+					return ok && s2.Sel.Name == field
+				}
+				var k int64
+				op := be.Op
+				switch {
+				case lenOf(be.X):
+					v, isC := constInt(info, be.Y)
+					if !isC {
+						why = "undecided condition `" + exprString(is.Cond) + "` (fails closed)"
+					}
+					k = v
+				case lenOf(be.Y):
+					v, isC := constInt(info, be.X)
+					if !isC {
+						why = "undecided condition `" + exprString(is.Cond) + "` (fails closed)"
+					}
+					k = v
+					// k op len  ==  len op' k
+					op = map[token.Token]token.Token{token.LSS: token.GTR, token.GTR: token.LSS, token.LEQ: token.GEQ, token.GEQ: token.LEQ, token.EQL: token.EQL, token.NEQ: token.NEQ}[op]
+				default:
+					why = "the condition `" + exprString(is.Cond) + "` is not a test of the number of " + field + " (undecided, fails closed)"
+				}
+				if strings.HasPrefix(why, "the configured") {
+					good := true
+					for _, ln := range []int64{0, 1, 2} {
+						var v bool
+						switch op {
+						case token.EQL:
+							v = ln == k
+						case token.NEQ:
+							v = ln != k
+						case token.LSS:
+							v = ln < k
+						case token.LEQ:
+							v = ln <= k
+						case token.GTR:
+							v = ln > k
+						case token.GEQ:
+							v = ln >= k
+						}
+						if v != (ln == 0) {
+							good = false
+						}
+					}
+					if good {
+						why = ""
+					} else {
+						why = "the configured " + field + " are replaced under `" + exprString(is.Cond) + "`, which is not \"none were configured\""
+					}
+				}
+				break
+			}
+			run.Oblige(why == "")
+			if why != "" {
+				c.violate(rule, site, "default "+field, as.Pos(), why+": what the caller asked for is not what is processed")
+			}
+		}
+		return true
+	})
+	run.Count("default_"+strings.ToLower(field), n)
+}
+
+// lenCondAt evaluates a condition made of comparisons of len(base) with constants (joined by
+// && and ||) for the length ln; decided=false when it contains anything else.
+func lenCondAt(info *types.Info, cond ast.Expr, base string, ln int64) (bool, bool) {
+	cond = ast.Unparen(cond)
+	be, ok := cond.(*ast.BinaryExpr)
+	if !ok {
+		if u, isU := cond.(*ast.UnaryExpr); isU && u.Op == token.NOT {
+			v, d := lenCondAt(info, u.X, base, ln)
+			return !v, d
+		}
+		return false, false
+	}
+	if be.Op == token.LAND || be.Op == token.LOR {
+		l, d1 := lenCondAt(info, be.X, base, ln)
+		r, d2 := lenCondAt(info, be.Y, base, ln)
+		if !d1 || !d2 {
+			return false, false
+		}
+		if be.Op == token.LAND {
+			return l && r, true
+		}
+		return l || r, true
+	}
+	isLen := func(e ast.Expr) bool {
+		call, ok := ast.Unparen(e).(*ast.CallExpr)
+		if !ok || len(call.Args) != 1 {
+			return false
+		}
+		id, ok := call.Fun.(*ast.Ident)
+		return ok && id.Name == "len" && types.ExprString(call.Args[0]) == base
+	}
+	var l, r int64
+	switch {
+	case isLen(be.X):
+		k, isC := constInt(info, be.Y)
+		if !isC {
+			return false, false
+		}
+		l, r = ln, k
+	case isLen(be.Y):
+		k, isC := constInt(info, be.X)
+		if !isC {
+			return false, false
+		}
+		l, r = k, ln
+	default:
+		return false, false
+	}
+	switch be.Op {
+	case token.EQL:
+		return l == r, true
+	case token.NEQ:
+		return l != r, true
+	case token.LSS:
+		return l < r, true
+	case token.LEQ:
+		return l <= r, true
+	case token.GTR:
+		return l > r, true
+	case token.GEQ:
+		return l >= r, true
+	}
+	return false, false
 }
